@@ -149,8 +149,13 @@ func (c *Collector) Note(s string) {
 // Inexhaustive marks the run as not exhaustive, with a reason.
 func (c *Collector) Inexhaustive(reason string) {
 	c.mu.Lock()
+	defer c.mu.Unlock()
+	for _, r := range c.inexh {
+		if r == reason {
+			return
+		}
+	}
 	c.inexh = append(c.inexh, reason)
-	c.mu.Unlock()
 }
 
 func (c *Collector) Counter(name string) int64 {
@@ -226,7 +231,17 @@ func (c *Collector) ImportPartial(path string) error {
 		}
 	}
 	c.notes = append(c.notes, p.Notes...)
-	c.inexh = append(c.inexh, p.Inexh...)
+	for _, r := range p.Inexh {
+		dup := false
+		for _, x := range c.inexh {
+			if x == r {
+				dup = true
+			}
+		}
+		if !dup {
+			c.inexh = append(c.inexh, r)
+		}
+	}
 	return nil
 }
 
